@@ -1,6 +1,6 @@
 (* C17 -- specifications of the remaining level-1 operations: operator-=, Replace(String,String), the producers. *)
 From Coq Require Import List NArith ZArith Bool Lia.
-From Muscle Require Import Cont.StrL0 Cont.StrModel Cont.StrLemmas Cont.StrGrow Cont.StrCore Cont.StrOps Cont.StrL0Facts.
+From Muscle Require Import Cont.StrL0 Cont.StrModel Cont.StrLemmas Cont.StrGrow Cont.StrCore Cont.StrOps Cont.StrL0Facts Cont.StrReplace.
 Import ListNotations.
 Local Open Scope N_scope.
 
@@ -147,13 +147,13 @@ Qed.
 (* ---------------------------------------------------------------- Replace(String, String) *)
 
 Lemma replace_s_spec s rm wm max from :
-  inv s -> osrc_ok wm ->
+  inv s -> nulfree (abs s) -> osrc_ok wm ->
   slen s + snd (osrc s wm) * slen s + 1 <= LIM ->
   let r := replace_s1 s rm wm max from in
   let r0 := l0_replace_sub (abs s) (src_bytes (osrc s rm)) (src_bytes (osrc s wm)) max from in
   inv (fst r) /\ abs (fst r) = fst r0 /\ snd r = Z.of_N (snd r0).
 Proof.
-  intros I Owm B r r0. unfold r, r0, StrModel.replace_s1. clear r r0.
+  intros I F Owm B r r0. unfold r, r0, StrModel.replace_s1. clear r r0.
   set (me := abs s). set (rb := src_bytes (osrc s rm)). set (wb := src_bytes (osrc s wm)).
   assert (Lme : lenN me = slen s) by apply (lenN_abs s I).
   assert (SOw : src_ok (osrc s wm)) by (destruct wm as [x|]; [apply Owm|now apply src_ok_of]).
@@ -184,28 +184,87 @@ Proof.
       destruct wm as [x|]; [apply Owm|discriminate E4].
     - apply N.eqb_neq in E5. rewrite (l0_replace_sub_whole_from me wb max from) by lia. cbn [fst snd]. splits; trivial. }
   fold me rb wb.
-  destruct (l0_replace_sub me rb wb max from) as [res cnt] eqn:ER. cbn [fst snd] in *.
-  assert (Cle : cnt <= slen s).
-  { pose proof (l0_count_sub_le me rb from) as Hc. clearbody me rb wb. clear - E3 F1 Hc Lme. assert (0 < lenN rb) by lia. nia. }
+  (* the general case: the pointer loops *)
+  assert (Nrb : rb <> []) by (intros X; rewrite X, lenN_nil in E3; congruence).
+  assert (Hfrom : from <= lenN me) by lia.
+  assert (Unf : l0_replace_sub me rb wb max from =
+                (takeN from me ++ fst (replace_sub_fuel (S (length me)) (dropN from me) rb wb max),
+                 snd (replace_sub_fuel (S (length me)) (dropN from me) rb wb max))).
+  { unfold l0_replace_sub. assert (X1 : (max =? 0) = false) by now apply N.eqb_neq. rewrite X1.
+    assert (X2 : (lenN me <=? from) = false) by (apply N.leb_gt; lia). rewrite X2.
+    assert (X3 : (lenN rb =? 0) = false) by now apply N.eqb_neq. rewrite X3. cbn [orb].
+    destruct (replace_sub_fuel (S (length me)) (dropN from me) rb wb max). reflexivity. }
+  assert (Fuel : (N.to_nat (lenN me - from) < S (length me))%nat) by (unfold lenN; lia).
+  assert (Fme : nulfree me) by exact F.
+  destruct (l0_replace_sub me rb wb max from) as [res cnt] eqn:ER. cbn [fst snd] in F1, F2, F3, F4 |- *.
+  set (RSF := replace_sub_fuel (S (length me)) (dropN from me) rb wb max) in *.
+  assert (Eres : res = takeN from me ++ fst RSF) by congruence.
+  assert (Ecnt : cnt = snd RSF) by congruence. clear Unf.
   destruct (lenN rb <? lenN wb) eqn:E6.
-  - apply N.ltb_lt in E6. rewrite (N.min_comm (l0_count_sub me rb from) max), <- F1.
+  - (* the replacement is longer: copy into a preallocated temporary, then swap *)
+    apply N.ltb_lt in E6. rewrite (N.min_comm (l0_count_sub me rb from) max), <- F1.
     destruct (cnt =? 0) eqn:E7.
     { apply N.eqb_eq in E7. cbn [fst snd]. splits; trivial; [symmetry; now apply F3|now rewrite E7]. }
     apply N.eqb_neq in E7.
+    assert (Cle : cnt <= slen s).
+    { pose proof (l0_count_sub_le me rb from) as Hc. assert (0 < lenN rb) by lia. nia. }
     assert (Lres : lenN res = slen s + (lenN wb - lenN rb) * cnt) by nia.
     rewrite <- Lres.
     assert (Bres : lenN res + 1 <= LIM) by (unfold LIM in *; nia).
     rewrite u32_small by (unfold LIM in *; lia).
     destruct inv_empty1 as (I0 & S0 & A0 & _).
     destruct (prealloc_ok empty1 (lenN res) I0 Bres) as (t & E & It & At & Ct & St). rewrite E.
-    cbn [fst snd]. destruct (commit_at t 0 res It) as (X1 & X2); [lia|lia|].
-    rewrite N.add_0_l in *. rewrite takeN_0 in X2. cbn [app] in X2. splits; trivial.
-  - apply N.ltb_ge in E6.
-    destruct (cnt =? 0) eqn:E7.
-    { apply N.eqb_eq in E7. cbn [fst snd]. splits; trivial; [symmetry; now apply F3|now rewrite E7]. }
-    cbn [fst snd]. pose proof (inv_lt _ I).
-    destruct (commit_at s 0 res I) as (X1 & X2); [lia| nia |].
-    rewrite N.add_0_l in *. rewrite takeN_0 in X2. cbn [app] in X2. splits; trivial.
+    pose proof (inv_len t It) as Lt.
+    assert (Hfr : from <= lenN res) by (rewrite Eres, lenN_app, lenN_takeN; lia).
+    set (tb0 := blit (buf t) 0 (takeN from (buf s))).
+    assert (Lfrom : lenN (takeN from (buf s)) = from) by (rewrite lenN_takeN, (inv_len s I); pose proof (inv_lt s I); lia).
+    assert (Ltb0 : lenN tb0 = StrModel.cap M t) by (unfold tb0; rewrite lenN_blit; lia).
+    assert (Ttb0 : takeN from tb0 = takeN from me).
+    { unfold tb0. rewrite <- Lfrom at 1. rewrite takeN_blit_0 by lia. rewrite Lfrom. unfold me, StrModel.abs.
+      rewrite takeN_takeN. symmetry. rewrite takeN_takeN. f_equal. lia. }
+    pose proof (repl_copy_spec me rb wb Fme Nrb (buf s)) as RC.
+    specialize (RC ltac:(rewrite (inv_len s I), Lme; pose proof (inv_lt s I); lia)).
+    specialize (RC ltac:(rewrite Lme; apply (take_with_nul s I))).
+    specialize (RC (S (length me)) from tb0 from max 0 Hfrom Fuel).
+    rewrite Lme in RC.
+    fold RSF in RC. destruct RSF as [t' c'] eqn:ERS. cbn [fst snd] in Eres, Ecnt, RC.
+    subst res cnt.
+    destruct (repl_copy (S (length me)) (buf s) (slen s) from tb0 from rb wb max 0) as [[tb w] cnt'].
+    destruct RC as (R1 & R2 & R3 & R4 & R5).
+    { rewrite Ltb0. rewrite lenN_app, lenN_takeN in Ct. lia. }
+    cbn [fst snd].
+    destruct (commit_spec t tb w It) as (X1 & X2 & X3 & _).
+    + rewrite R2. exact Ltb0.
+    + rewrite lenN_app, lenN_takeN in Ct. lia.
+    + exact R4.
+    + splits; trivial; [|f_equal; lia]. rewrite X3, R3, Ttb0. reflexivity.
+  - (* in place *)
+    apply N.ltb_ge in E6.
+    destruct (take_with_nul s I) as [].
+    assert (Bs : exists junk, buf s = me ++ 0 :: junk).
+    { exists (dropN (slen s + 1) (buf s)). rewrite <- (takeN_dropN (slen s + 1) (buf s)) at 1.
+      rewrite (take_with_nul s I), <- app_assoc. reflexivity. }
+    destruct Bs as [junk Bs].
+    pose proof (repl_inplace_spec me junk rb wb Fme Nrb (negb (lenN rb =? lenN wb)) E6) as RI.
+    specialize (RI ltac:(intros X; apply negb_false_iff, N.eqb_eq in X; lia)).
+    specialize (RI (S (length me)) (buf s) from None max 0 Hfrom Fuel).
+    rewrite <- Bs in RI. specialize (RI eq_refl eq_refl).
+    specialize (RI ltac:(rewrite Bs; apply takeN_app_le; lia)).
+    cbn zeta in RI. rewrite Lme in RI.
+    fold RSF in RI. destruct RSF as [t' c'] eqn:ERS. cbn [fst snd] in Eres, Ecnt, RI.
+    subst res cnt.
+    destruct (repl_inplace (S (length me)) (buf s) (slen s) from None rb wb (negb (lenN rb =? lenN wb)) max 0) as [[b' w'] cnt'].
+    destruct RI as (R1 & R2 & R3).
+    destruct w' as [wf|].
+    + destruct R3 as (J1 & J2 & J3). cbn [fst snd].
+      pose proof (inv_lt s I) as Lts.
+      destruct (commit_spec s b' wf I) as (X1 & X2 & X3 & _).
+      * rewrite R2, (inv_len s I). reflexivity.
+      * lia.
+      * exact J2.
+      * splits; trivial; [|f_equal; lia]. rewrite X3, J1. reflexivity.
+    + destruct R3 as (_ & J2 & _). cbn [fst snd]. splits; trivial; [|f_equal; lia].
+      symmetry. apply F3. now rewrite Ecnt.
 Qed.
 
 End Ops2.
